@@ -124,6 +124,51 @@ def rule_bound(ctx) -> None:
     ctx.check(cmps == ["Gt", "Lt"], "C18.BOUND", f"{cl.qual}/two-sided", cl.loc(), "_clamp tests x > hi and x < lo", f"_clamp comparisons are {cmps}")
 
 
+def rule_bound_everywhere(ctx) -> None:
+    """"every GEL edge weight lies within the configured clamp bounds" after ANY step: besides observe (above) and tick (DECAY),
+    every other function of the module that writes an edge weight - promotion attaches concept edges with a configured
+    attach_weight - writes a value clamped to graph.update.clamp_min / clamp_max (or the literal 0, which the validator keeps
+    inside the bounds)."""
+    m = ctx.prog.module(GEL)
+    n_st = 0
+    for fn in m.funcs.values():
+        if fn.name in ("observe_retrieval", "tick") or fn.qual.count(".") > GEL.count(".") + 0 and ":" in fn.qual and "." in fn.qual.split(":")[-1]:
+            continue
+        rd = None
+        for x in walk_no_defs(fn.node):
+            vals = []
+            if isinstance(x, ast.Assign) and any(_is_weight_store(t) for t in x.targets):
+                vals.append(x.value)
+            if isinstance(x, ast.Dict):
+                for k, v in zip(x.keys, x.values):
+                    if k is not None and const_str(k) == "weight" and any(const_str(k2) in ("src", "dst") for k2 in x.keys if k2 is not None):
+                        vals.append(v)
+            for v in vals:
+                rd = rd or ctx.rd(fn)
+                cfg = ctx.cfg(fn)
+                at = (cfg.node_containing(v) or [None])[0]
+                if at is None:
+                    continue
+                n_st += 1
+                cands = [(v, at)]
+                if isinstance(v, ast.Name):
+                    cands = [(d.value, d.node) for d in rd.reaching(v.id, at) if d.kind != "mutate"]
+                for val, vat in cands:
+                    key = ctx.okey(f"{fn.qual}/edge-weight-written-inside-bounds")
+                    if isinstance(val, ast.Constant) and isinstance(val.value, (int, float)) and float(val.value) == 0.0:
+                        ctx.holds("C18.BOUND", key, fn.loc(v), "literal 0 (the validator keeps 0 inside the clamp bounds)", nontrivial=False)
+                        continue
+                    c = _clamp_call(val) if val is not None else None
+                    ok = False
+                    if c is not None and len(c.args) >= 3:
+                        lo, hi = rd.slice([c.args[1]], vat).constants(), rd.slice([c.args[2]], vat).constants()
+                        ok = "clamp_min" in lo and "clamp_max" in hi
+                    ctx.check(ok, "C18.BOUND", key, fn.loc(v), "the written weight is _clamp(., graph.update.clamp_min, graph.update.clamp_max)",
+                              f"{fn.name} writes the edge weight `{src(val)[:50] if val is not None else '?'}`, which is not clamped to graph.update.clamp_min / clamp_max: after this step an edge "
+                              "weight can lie outside the configured bounds (e.g. promotion.attach_weight 0.5 with clamp_max 0.1)")
+    ctx.floor("C18.BOUND", "edge-weight writes outside observe / tick", n_st, 2)
+
+
 def rule_decay(ctx) -> None:
     fn = ctx.func(GEL + ":tick")
     cfg = ctx.cfg(fn)
@@ -623,6 +668,7 @@ def rule_gate(ctx) -> None:
 
 def run(ctx) -> None:
     rule_bound(ctx)
+    rule_bound_everywhere(ctx)
     rule_decay(ctx)
     rule_key(ctx)
     rule_key_siblings(ctx)
